@@ -204,7 +204,7 @@ class Baton:
 # ---------------------------------------------------------------------------
 # request kinds
 
-KINDS = ['plain', 'body', 'raise', 'nf', 'crash', 'json404', 'form', 'hdrs']
+KINDS = ['plain', 'body', 'raise', 'nf', 'crash', 'json404', 'form', 'hdrs', 'mutq', 'latin', 'badmp_json']
 
 
 def make_app(config=None, app=None):
@@ -260,6 +260,23 @@ def make_app(config=None, app=None):
         rs.set_cookie('c', name)
         raise ValueError('boom ' + name)
 
+    @app.route('/mutq/<name>')
+    def mutq(name):
+        # a handler may use its parsed query as scratch space
+        q = rq.query
+        before = json.dumps(sorted((k, v) for k, v in q.items()), default=str)
+        q.pop('page', None)
+        q['sort'] = 'by-' + name
+        if isinstance(q.get('tag'), list):
+            q['tag'].append('seen-by-' + name)
+        p = rq.params
+        return json.dumps([name, before, sorted(p.keys())])
+
+    @app.route('/latin/<name>')
+    def latin(name):
+        rs.content_type = 'text/plain; charset=latin-1'
+        return (x for x in ['caf\xe9 ', name, ' na\xefve'])
+
     @app.route('/hdrs/<name>')
     def hdrs(name):
         rs.headers['X-A'] = name
@@ -303,6 +320,17 @@ def environ_for(kind, name):
     elif kind == 'oversize':
         data = b'x' * 5000 + name.encode()
         env.update(PATH_INFO='/body/' + name, REQUEST_METHOD='POST', CONTENT_LENGTH=str(len(data)))
+        env['wsgi.input'] = io.BytesIO(data)
+    elif kind == 'mutq':
+        env['PATH_INFO'] = '/mutq/' + name
+        env['QUERY_STRING'] = 'page=2&tag=x&tag=y'          # the same query string for every client
+    elif kind == 'latin':
+        env['PATH_INFO'] = '/latin/' + name
+    elif kind == 'badmp_json':
+        # a multipart part without a field name; the error message quotes the offending header line
+        data = ('--B\r\nContent-Disposition: form-data; x-owner-token="secret-of-%s"\r\n\r\nv\r\n--B--\r\n' % name).encode()
+        env.update(PATH_INFO='/form/' + name, REQUEST_METHOD='POST', CONTENT_LENGTH=str(len(data)), CONTENT_TYPE='multipart/form-data; boundary=B',
+                   HTTP_ACCEPT='application/json')
         env['wsgi.input'] = io.BytesIO(data)
     elif kind in ('badchunk_json', 'oversize_json'):
         env = environ_for(kind[:-5], name)
